@@ -16,8 +16,20 @@ class Boom(Exception):
     pass
 
 
+def _lib_validation_error(marker):
+    # the library's own validators.ValidationError raised BY THE METHOD BODY, wrapping an object without a JSON form
+    from pjrpc.server import validators
+    return validators.ValidationError(ValueError(marker))
+
+
+def _json_decode_error(marker):
+    import json
+    return json.JSONDecodeError(marker, 'doc', 0)
+
+
 EXC_TYPES = {'ValueError': ValueError, 'KeyError': KeyError, 'TypeError': TypeError, 'AssertionError': AssertionError,
-             'RuntimeError': RuntimeError, 'Boom': Boom}
+             'RuntimeError': RuntimeError, 'Boom': Boom, 'LibValidationError': _lib_validation_error,
+             'JSONDecodeError': _json_decode_error}
 
 
 def run_coro(coro):
